@@ -17,6 +17,8 @@ Inductive case :=
 | CList (ns : list node) (g : graph) (c : rawcfg)
 | CAncestors (g : graph) (n : nat)
 | CDescendants (g : graph) (n : nat)
+| CAncestorsPaths (g : graph) (n : nat)
+| CDescendantsPaths (g : graph) (n : nat)
 | CDirect (g : graph) (n : nat)
 | CDeps (ns : list node) (g : graph) (c : rawcfg) (n : nat) (t : bool)
 | CRdeps (ns : list node) (g : graph) (c : rawcfg) (n : nat) (t : bool)
@@ -41,6 +43,17 @@ Definition lines (l : list str) : str := catmap (L ",") hex l.
 Definition show_graph (g : graph) : str :=
   catmap (L ",") (fun ds => match ds with [] => L "-" | _ => catmap (L ".") dec ds end) g.
 
+(* entries into the recursive function of the three traversals and the exact cost formula, on the returned lists *)
+Definition calls (g : graph) (t b : nat) : str :=
+  let deg (next : nat -> list nat) v := 1 + length (next v) in
+  let wsum next l := fold_left (fun acc v => acc + deg next v) l 0 in
+  let sv := fst (select_visited g t) in
+  let av := fst (ancestors_visited g t) in
+  let dv := fst (descendants_visited g b) in
+  tabs [L "calls"; dec (length sv); dec (1 + length av); dec (1 + length dv); L "formula";
+        dec (wsum (deps g) sv); dec (deg (deps g) t + wsum (deps g) av);
+        dec (deg (dependants g) b + wsum (dependants g) dv)].
+
 Definition show_sel (extra : config -> list nat -> list str) (c : config) (r : sel_result) : str :=
   match r with
   | PlatformError => L "platform-error"
@@ -58,8 +71,10 @@ Definition run_case (c : case) : str :=
       tabs [L "selcost"; match res with None => L "platform-error" | Some _ => L "ok" end; dec calls])
   | CRoots ns g r => with_cfg r (fun c => tabs [L "roots"; idxs (roots c ns g); idxs (spec_roots c ns g)])
   | CList ns g r => with_cfg r (fun c => tabs [L "list"; idxs (select_targets c ns g)])
-  | CAncestors g n => tabs [L "ms"; sorted_idxs (ancestors_paths g n)]
-  | CDescendants g n => tabs [L "ms"; sorted_idxs (descendants_paths g n)]
+  | CAncestors g n => let l := fst (ancestors_visited g n) in tabs [L "ms"; sorted_idxs l; L "ord"; idxs l]
+  | CDescendants g n => tabs [L "ms"; sorted_idxs (fst (descendants_visited g n))]
+  | CAncestorsPaths g n => tabs [L "ms"; sorted_idxs (ancestors_paths g n)]
+  | CDescendantsPaths g n => tabs [L "ms"; sorted_idxs (descendants_paths g n)]
   | CDirect g n => tabs [L "direct"; sorted_idxs (deps g n); sorted_idxs (dependants g n)]
   | CDeps ns g r n t => with_cfg r (fun c =>
       tabs [L "lines"; lines (deps_query c ns g n t); lines (deps_query_dedup c ns g n t)])
@@ -72,11 +87,11 @@ Definition run_case (c : case) : str :=
       tabs [L "cost"; L "paths"; dec (select_paths_cost g t); dec (ancestors_paths_cost g t);
             dec (descendants_paths_cost g b); L "visited"; dec (select_visited_cost g t);
             dec (ancestors_visited_cost g t); dec (descendants_visited_cost g b);
-            L "VE"; dec (length g); dec (edges g)]
+            L "VE"; dec (length g); dec (edges g); calls g t b]
   | CCostv g t b =>
       if negb (topob g && wf_graphb g) then L "not-topological" else
       tabs [L "costv"; L "visited"; dec (select_visited_cost g t); dec (ancestors_visited_cost g t);
-            dec (descendants_visited_cost g b); L "VE"; dec (length g); dec (edges g)]
+            dec (descendants_visited_cost g b); L "VE"; dec (length g); dec (edges g); calls g t b]
   | CSets g t b =>
       tabs [L "sets"; sorted_idxs (ancestors_set g t); sorted_idxs (fst (ancestors_visited g t));
             sorted_idxs (descendants_set g b); sorted_idxs (fst (descendants_visited g b))]
